@@ -414,6 +414,8 @@ def r10_6(ctx: Ctx):
             st_p, why = VIOLATION, "axis=0: rows and coordinates exchanged"
         elif "isclose" in t and ("rtol=" in t or "atol=" in t):
             st_p, why = INCONCLUSIVE, f"match predicate `{norm(inner)[:80]}` uses non-default tolerances"
+        elif ".tobytes()" in t or "hash(" in t:
+            st_p, why = VIOLATION, f"a seed is recognised by a byte / hash key (`{norm(inner)[:70]}`): numerically equal genomes with different bit patterns (-0.0 and 0.0, another dtype, values on either side of a rounding boundary) get different keys, so a candidate equal to an existing seed is let through"
         else:
             why = f"match predicate `{norm(inner)[:80]}` is not recognisable as any-row(all-coordinates(isclose))"
     if st_p != OK:
